@@ -33,7 +33,7 @@ if [ "$pass" = "119" ] && [ "$fail" = "0" ] && [ $rc_with -ne 0 ] && [ $rc_witho
 echo "confirmed=$confirmed" | tee -a $log
 # run our check against it
 cd /repo || exit 2
-if ! git apply --check $out/patch.diff 2>>$log; then echo "patch does not apply to /repo" | tee -a $log; detected=unknown; else
+if [ -n "$NO_CHECK" ]; then detected=not-run; rc=2; elif ! git apply --check $out/patch.diff 2>>$log; then echo "patch does not apply to /repo" | tee -a $log; detected=unknown; else
 git apply $out/patch.diff
 ( cd /verif && bin/check $prop --no-evidence > $out/check_output.txt 2>&1 ); rc=$?
 git checkout -- . 
